@@ -56,6 +56,14 @@ def _gen_plant_case(rng, idx, kind=None, n=None):
     ein = E.gen_inputs(rng, spec, n=n, capacity_ok=True)
     min_ = M.gen_inputs(rng, spec, n=ein["n"], engines_ok=True)
     min_["dt"] = ein["dt"]
+    if kind == "hybrid" and rng.random() < 0.25:
+        # a constant PTI/PTO power held as ONE value next to per-step full-PTI flags (the hybrid system sizes it: D88)
+        p = ptis[int(rng.integers(len(ptis)))]
+        d = min_["comp"][p["name"]]
+        v = next((x for x in d["shaft"] if x != 0), 0.0)
+        if v != 0:
+            d["shaft"] = [v] * ein["n"]
+            min_["pti_power_single"] = [p["name"]]
     # the shared PTI/PTO: given-power mode on the electric side, shaft power from the mechanical inputs
     for p in ptis:
         ein["comp"][p["name"]]["mode"] = [1.0] * ein["n"]
